@@ -464,7 +464,7 @@ inner_gf5248_sbb(unsigned char cc, uint64_t a, uint64_t b, uint64_t *d)
         inner_gf5248_umul(lo, hi, h, 0xCCCCCCCCCCCCCCCD);
         quo = hi >> 2;
         rem = h - (5 * quo);
-        cc = inner_gf5248_adc(cc, d0, quo, &d0);
+        cc = inner_gf5248_adc(0, d0, quo, &d0);
         cc = inner_gf5248_adc(cc, d1, 0, &d1);
         cc = inner_gf5248_adc(cc, d2, 0, &d2);
         (void)inner_gf5248_adc(cc, d3, rem << 56, &d3);
